@@ -19,7 +19,9 @@ META = {
                  "replayed into a freshly keyed real receiver Transport",
     "text": "Per suite a 3-message stream (5, 40, 17 bytes) recorded after NEWKEYS: every byte position x {xor 0x01, "
             "xor 0x80, xor 0xff, delete, insert 0x00, truncate}; every swap of two packets, every drop, every "
-            "duplication/replay position; thorough adds all pairs of bit flips inside the first packet and (length-"
+            "duplication/replay position; every edit is run twice - new dimension 'stream end': after the edited bytes recv() "
+            "blocks (the receiver waits) or returns end-of-file (the attacker closes the connection, i.e. a deletion of "
+            "everything that follows); thorough adds all pairs of bit flips inside the first packet and (length-"
             "field byte, any byte) pairs. Quick: all 144 suites client->server plus 14 class representatives "
             "server->client; thorough: all 144 suites, both directions, plus 81 streams that cross a re-key between class representatives. The receiver must deliver only an unmodified prefix of the sent "
             "messages - no message decoded from bytes at or after the first changed byte - then raise or wait.",
@@ -192,8 +194,11 @@ def outcome_of(r):
     return "raises:" + name + ("(%s)" % text if text and len(text) < 30 and not any(c.isdigit() for c in text) else "")
 
 
-def run_edit(direction, script, newkeys, sent, edited):
-    return P.receive(direction, script, newkeys + edited, extra_reads=2)
+ENDS = ("waits", "eof")     # what recv() answers once the (edited) stream is used up: block | b"" (connection closed)
+
+
+def run_edit(direction, script, newkeys, sent, edited, end="waits"):
+    return P.receive(direction, script, newkeys + edited, extra_reads=2, eof=(end == "eof"))
 
 
 def do_suite(item, acc):
@@ -203,10 +208,13 @@ def do_suite(item, acc):
     enc = b"".join(packets)
     regions = regions_of(direction, script, packets)
     cls = suite_class(suite) if suite2 is None else "rekey"
-    # sanity: the unedited stream is delivered completely, then the reader waits
+    # sanity: the unedited stream is delivered completely, then the reader waits / sees the end of file
     r0 = run_edit(direction, script, newkeys, sent, enc)
     if r0.got != sent or not r0.waits:
         raise AssertionError("seam: unedited stream not delivered for %r: %r %r" % (suite, r0.got, r0.error))
+    r0 = run_edit(direction, script, newkeys, sent, enc, "eof")
+    if r0.got != sent or not isinstance(r0.error, EOFError):
+        raise AssertionError("seam: unedited stream + EOF not delivered for %r: %r %r" % (suite, r0.got, r0.error))
     edits = [(lab, (pos,), data) for lab, pos, data in E.byte_edits(enc)]
     edits += list(packet_edits(packets))
     if tier != "quick" and suite2 is None:
@@ -217,26 +225,27 @@ def do_suite(item, acc):
             acc.count("edits_identical_to_original")
             continue
         n_intact, lcp = intact_packets(packets, edited)
-        r = run_edit(direction, script, newkeys, sent, edited)
-        acc.ev()
-        clause = judge(sent, r, n_intact)
         region = region_at(regions, lcp) if lab not in ("swap", "drop", "dup") else "packet"
-        if clause == "accepted-tampered-packet" and not STRICT_TAMPERED_PACKET:
-            acc.count("tampered_packets_accepted_unchanged")
-            clause = None
-        if clause:
-            dims = {"framing": cls, "mac": "-" if cls in ("gcm", "rekey") else suite[1], "zlib": suite[2] != "none",
-                    "edit": "flip" if EDIT_CLASS[lab] == "flip2" else EDIT_CLASS[lab]}
-            P.sig_violation(acc, clause, dims, {"suite": suite, "dir": direction, "edit": lab, "pos": list(pos), "region": region,
-                                "first_changed_byte": lcp, "intact_packets": n_intact,
-                                "delivered": [g[:24] for g in r.got], "sent": [s[:24] for s in sent],
-                                "then": outcome_of(r) if (r.waits or r.error) else "none"},
-                          {"suite": list(suite), "suite2": list(suite2) if suite2 else None, "dir": direction,
-                           "edit": lab, "pos": list(pos)})
-        else:
-            acc.nt((suite, suite2, EDIT_CLASS[lab], region, r.done - 1))
-            acc.count("outcome:" + outcome_of(r))
-            acc.count("packets_accepted_before_stop_%d" % (r.done - 1))
+        for end in ENDS:
+            r = run_edit(direction, script, newkeys, sent, edited, end)
+            acc.ev()
+            clause = judge(sent, r, n_intact)
+            if clause == "accepted-tampered-packet" and not STRICT_TAMPERED_PACKET:
+                acc.count("tampered_packets_accepted_unchanged")
+                clause = None
+            if clause:
+                dims = {"framing": cls, "mac": "-" if cls in ("gcm", "rekey") else suite[1], "zlib": suite[2] != "none",
+                        "edit": "flip" if EDIT_CLASS[lab] == "flip2" else EDIT_CLASS[lab], "end": end}
+                P.sig_violation(acc, clause, dims, {"suite": suite, "dir": direction, "edit": lab, "pos": list(pos), "region": region,
+                                    "stream_end": end, "first_changed_byte": lcp, "intact_packets": n_intact,
+                                    "delivered": [g[:24] for g in r.got], "sent": [s[:24] for s in sent],
+                                    "then": outcome_of(r) if (r.waits or r.error) else "none"},
+                              {"suite": list(suite), "suite2": list(suite2) if suite2 else None, "dir": direction,
+                               "edit": lab, "pos": list(pos), "end": end})
+            else:
+                acc.nt((suite, suite2, EDIT_CLASS[lab], region, r.done - 1, end))
+                acc.count("outcome:" + outcome_of(r))
+                acc.count("packets_accepted_before_stop_%d" % (r.done - 1))
     if suite in (QUICK_SUITES[0], QUICK_SUITES[8], QUICK_SUITES[11]) and direction == "c2s":
         acc.sample({"suite": suite, "dir": direction, "message_lengths": list(LENGTHS),
                     "packet_wire_lengths": [len(p) for p in packets],
@@ -258,11 +267,12 @@ def main(tier):
         PID, tier, "fault_enumeration",
         "case = (suite, direction, one edit of the recorded ciphertext stream) replayed into a fresh receiver. "
         "nontrivial = distinct (cipher, MAC, compression, edit class [flip|delete|insert|truncate|swap|drop|replay|"
-        "flip2], region of the first changed byte as located by the independent decoder [length|padlen|payload|"
+        "flip2], what recv() answers when the edited stream is used up [waits | eof], region of the first changed byte as located by the independent decoder [length|padlen|payload|"
         "padding|mac, or whole packet], number of messages delivered before the receiver stopped) tuples whose edit "
         "really changed the stream and for which the oracle held",
         ["receiver keyed like the sender from fixed K/H/session id; sender side is paramiko (recorded once per suite)",
-         "adversary bounded to one edit per stream (thorough: also two bit flips); recv() returns exactly what is asked",
+         "adversary bounded to one edit per stream (thorough: also two bit flips), each followed by either silence or a "
+         "closed connection; recv() otherwise returns exactly what is asked",
          "STRICT_TAMPERED_PACKET=%s: a packet that is no longer byte-identical to the sender's must not be delivered "
          "even if it decodes to the same message" % STRICT_TAMPERED_PACKET])
     items = items_for(tier)
@@ -270,7 +280,7 @@ def main(tier):
     P.regroup(ck, {"framing": {"classic-ctr", "classic-cbc", "etm-ctr", "etm-cbc", "gcm"} | (
                        set() if tier == "quick" else {"rekey"}),
                    "mac": set(P.MACS), "zlib": {True, False},
-                   "edit": set(EDIT_CLASS.values()) - {"flip2"}})
+                   "edit": set(EDIT_CLASS.values()) - {"flip2"}, "end": set(ENDS)})
     ck.extra["bound"] = {"suites": len(set(i[2] for i in items)), "work_items": len(items),
                          "message_lengths": list(LENGTHS), "double_faults": tier != "quick"}
     return ck.finish()
@@ -292,9 +302,11 @@ def replay(rec):
         print("edit not found")
         return 3
     n_intact, lcp = intact_packets(packets, edited)
-    r = run_edit(direction, script, newkeys, sent, edited)
+    end = case.get("end") or "waits"
+    r = run_edit(direction, script, newkeys, sent, edited, end)
     clause = judge(sent, r, n_intact)
-    print("suite", suite, direction, "edit", lab, pos, "first changed byte", lcp, "intact packets", n_intact)
+    print("suite", suite, direction, "edit", lab, pos, "first changed byte", lcp, "intact packets", n_intact,
+          "stream end", end)
     print("sent     ", [s.hex()[:48] for s in sent])
     print("delivered", [g.hex()[:48] for g in r.got])
     print("then", outcome_of(r) if (r.waits or r.error) else "none", "| verdict:", clause or "property held")
